@@ -23,6 +23,8 @@ import (
 	"fmt"
 	"math"
 	"net"
+	"os"
+	"os/exec"
 	"runtime"
 	"sort"
 	"strconv"
@@ -42,7 +44,8 @@ func init() { engines["bep44"] = b44Engine }
 
 const b44Exp = 120 * time.Minute
 
-var b44Grid = []int64{math.MinInt64, -1, 0, 1, 2, 3, math.MaxInt64}
+// small values first so that the first reported example of a finding is the most readable one
+var b44Grid = []int64{1, 2, 3, 0, -1, math.MinInt64, math.MaxInt64}
 
 type b44env struct {
 	r      *rng
@@ -53,7 +56,7 @@ type b44env struct {
 	oracle map[string]int // emitted oracle lines per key (details of the first few only)
 }
 
-func b44Engine(seed uint64, tier string, _ []string) {
+func b44Engine(seed uint64, tier string, args []string) {
 	e := &b44env{r: &rng{s: seed ^ 0xb44b44}, seed: seed, tier: tier, oracle: map[string]int{}}
 	for i := 0; i < 3; i++ {
 		p := ed25519.NewKeyFromSeed(e.r.bytes(32))
@@ -62,10 +65,63 @@ func b44Engine(seed uint64, tier string, _ []string) {
 		copy(k[:], p.Public().(ed25519.PublicKey))
 		e.pub = append(e.pub, k)
 	}
+	if len(args) > 0 && args[0] == "server-child" {
+		e.server()
+		return
+	}
 	e.pure()
 	e.sequential()
 	e.concurrent()
-	e.server()
+	e.serverContained()
+}
+
+// Part (d) drives a real Server whose serve loop runs in its own goroutine: a panic there cannot be
+// recovered here, so that part runs in a child process.  Its lines are copied through; if it dies,
+// that is reported (with what it was doing) instead of killing the run.
+func (e *b44env) serverContained() {
+	cmd := exec.Command(os.Args[0], "-seed", strconv.FormatUint(e.seed, 10), "-tier", e.tier, "bep44", "server-child")
+	var stdout, stderr bytes.Buffer
+	cmd.Stdout, cmd.Stderr = &stdout, &stderr
+	done := make(chan error, 1)
+	if err := cmd.Start(); err != nil {
+		emit("oracle C12 server-part-not-run seed=%d %v", e.seed, err)
+		return
+	}
+	go func() { done <- cmd.Wait() }()
+	var err error
+	select {
+	case err = <-done:
+	case <-time.After(10 * time.Minute):
+		cmd.Process.Kill()
+		err = fmt.Errorf("timeout")
+	}
+	lines := strings.Split(strings.TrimRight(stdout.String(), "\n"), "\n")
+	last := ""
+	for _, l := range lines {
+		if l == "" {
+			continue
+		}
+		emit("%s", l)
+		if !strings.HasPrefix(l, "oracle ") && !strings.HasPrefix(l, "edtable ") {
+			last = l
+		}
+	}
+	if err != nil {
+		if !strings.HasPrefix(last, "b44end") {
+			emit("b44end => ok") // keep the case structure well-formed for the runner
+		}
+		cause := "?"
+		for _, l := range strings.Split(stderr.String(), "\n") {
+			if strings.HasPrefix(l, "panic:") || strings.HasPrefix(l, "fatal error:") {
+				cause = l
+				break
+			}
+		}
+		if len(last) > 300 {
+			last = last[:300]
+		}
+		emit("oracle C12 server-crashed-on-put-get seed=%d exit=%v cause=%q last-line=%q", e.seed, err, cause, last)
+	}
 }
 
 func (e *b44env) thorough() bool { return e.tier == "thorough" }
@@ -1140,9 +1196,10 @@ func (e *b44env) beginServer(name string, items []*b44it) *b44srv {
 	return &b44srv{c: c, conn: conn, s: s, from: &net.UDPAddr{IP: net.IPv4(10, 1, 2, 3), Port: 7000}}
 }
 
-func (v *b44srv) close() { v.s.Close(); v.c.end() }
+func (v *b44srv) close() { v.s.Close(); v.c.end(); out.Flush() }
 
 func (v *b44srv) query(q string, a *krpc.MsgArgs) *krpc.Msg {
+	out.Flush() // a crash of the server must not lose what was observed so far
 	v.nt++
 	t := fmt.Sprintf("t%d", v.nt)
 	var id [20]byte
